@@ -76,6 +76,35 @@ func NewEngine(P *Program, S *Specs) *Engine {
 		}
 		return IntV(t, tInt)
 	}
+	E.specFuncs["digitsVal"] = func(ev *Env, e *ECall) Value {
+		// digitsVal(s, lo, hi): decimal value of s[lo:hi]
+		if len(e.Args) != 3 {
+			ev.errf("digitsVal(slice, lo, hi)")
+		}
+		s := ev.eval(e.Args[0])
+		lo := ev.evalI(e.Args[1])
+		hi := ev.evalI(e.Args[2])
+		if s.Kind != KSlice || elemSize(s) != 1 {
+			ev.errf("digitsVal: byte slice expected")
+		}
+		fx := ev.fr.fx
+		el := under(s.Typ).(*types.Slice).Elem()
+		fx.enc.usesDv = true
+		arr := fx.heapOf(ev.cur, "M."+typeKey(el))
+		a, h := Add(s.T, lo), Add(s.T, hi)
+		t := app("dvA", arr, a, h)
+		if fx.enc.quiet == 0 {
+			if fx.enc.cntSeen == nil {
+				fx.enc.cntSeen = map[string]bool{}
+			}
+			if !fx.enc.cntSeen[t] {
+				fx.enc.cntSeen[t] = true
+				prev := app("dvA", arr, a, Sub(h, "1"))
+				fx.enc.Assume(Eq(t, Ite(Le(h, a), "0", Add(Mul("10", prev), app("dclamp", Select(arr, Sub(h, "1")))))))
+			}
+		}
+		return IntV(t, tInt)
+	}
 	for name, cls := range map[string]string{"digitEnd": "1", "alphaEnd": "2", "hexEnd": "3", "wsEnd": "4"} {
 		cls := cls
 		name := name
